@@ -328,4 +328,17 @@ theorem inverse_compose_rev (a b : Xf K) (har : a.r.det ≠ 0) (has : a.s ≠ 0)
   rw [compose_assoc, ← compose_assoc b, compose_inverse b hbr hbs, id_compose, compose_inverse a har has]
 end InvComp
 
+section RodriguesCorners
+/-- zero rotation angle (`c = 1`, `s = 0`, `1 − cos = 0`) gives the identity matrix, whatever the axis -/
+theorem rodrigues_zero (n : Vec3 K) : Mat3.rodrigues n 1 0 0 = Mat3.one := by
+  unfold Mat3.rodrigues Mat3.one
+  simp only [Mat3.mk.injEq]
+  refine ⟨?_, ?_, ?_, ?_, ?_, ?_, ?_, ?_, ?_⟩ <;> ring
+/-- negating the sine (the opposite rotation about the same axis) transposes the matrix -/
+theorem rodrigues_neg (n : Vec3 K) (c s omc : K) : Mat3.rodrigues n c (-s) omc = (Mat3.rodrigues n c s omc).transpose := by
+  unfold Mat3.rodrigues Mat3.transpose
+  simp only [Mat3.mk.injEq]
+  refine ⟨?_, ?_, ?_, ?_, ?_, ?_, ?_, ?_, ?_⟩ <;> first | trivial | ring
+end RodriguesCorners
+
 end Nifly.Xform
